@@ -29,7 +29,10 @@ type World struct {
 	wrMemo     map[*types.Func]wrSummary
 	InlinePreds bool // second reading: boolean helper calls stand for their bodies (see inline.go)
 	SpliceKnown bool // second reading: helpers the rule tables know are read in place of their calls too
+	siteRel     *flow.Site // while set: observer-defined locals are decided relative to this site of siteRelUnit
+	siteRelUnit *Unit
 	obsUse     map[types.Object]bool
+	obsSite    map[siteKey]bool
 	obsDef     map[ast.Expr]bool
 	Vocab      VocabSnapshot         // local signatures recorded when the rule tables were written (nil: none)
 	Renamed    []string              // renamed locals recognised in this run
